@@ -162,7 +162,7 @@ def judge_call(kind, cone_spec, d1, d2, slack, solver_rate, fault_key, log=None)
         out["faulted"] = faulted
         out["margin"] = [jd.lo, jd.hi]
         return out
-    band = BAND_FALLBACK if faulted else (BAND_FLOAT if (rect and kind == "is_dominated") else BAND_NOMINAL)
+    band = O.fallback_band(s1, s2) if faulted else (BAND_FLOAT if (rect and kind == "is_dominated") else BAND_NOMINAL)
     d = O.decide(jd, *band)
     out.update(result=got.get("res"), faulted=faulted, status=got.get("status"), margin=[jd.lo, jd.hi], scale=jd.scale, exact=jd.exact, oracle=d)
     if d is None:
